@@ -115,9 +115,10 @@ def update_callable(
             f'{buildable.__fn_or_cls__}) because the Buildable would '
             f'have invalid arguments {invalid_args}.'
         )
-  if drop_invalid_args and not new_signature_info.has_var_keyword:
+  if not new_signature_info.has_var_keyword:
     # Tags of parameters that do not exist on the new callable are dropped as
-    # well, otherwise they would refer to arguments that can never be set.
+    # well, otherwise they would refer to arguments that can never be set. (At
+    # this point no such parameter has a value any more.)
     for arg in list(buildable.__argument_tags__.keys()):
       if isinstance(arg, str) and arg not in new_signature.parameters:
         if buildable.__argument_tags__.pop(arg):
